@@ -295,7 +295,7 @@ func genColorSpec(t *rapid.T, label string) ColorSpec {
 }
 
 func TestOptions(t *testing.T) {
-	harness.Rapid(t, harness.N(12000, 16*30000), func(t *rapid.T) {
+	harness.Rapid(t, harness.N(12000, 16*240000), func(t *rapid.T) {
 		var c Case
 		if rapid.Bool().Draw(t, "suggested") {
 			p := gen.Palette(t, "sugg", true)
